@@ -139,6 +139,24 @@ pub fn lookup_variable(
         return None;
     };
 
+    // A member path (`p.x`) bound as a whole is a captured member of an outer `p`. A later
+    // binding of `p` itself — in an inner scope, or further on in the same scope — shadows it:
+    // `p.x` then means the field of the new `p`, which the caller resolves through the base.
+    if !accessors.is_empty() {
+        let base_name = helpers::make_capture_name(name, &[]);
+        let base = scopes
+            .iter()
+            .enumerate()
+            .rev()
+            .find_map(|(i, s)| s.bindings.get(&base_name).map(|b| (i, b)));
+        if let Some((base_scope_idx, Binding::Variable { index: base_index, .. })) = base
+            && (base_scope_idx > binding_scope_idx
+                || (base_scope_idx == binding_scope_idx && base_index > index))
+        {
+            return None;
+        }
+    }
+
     // Check for narrowings from current scope back to binding scope
     // (innermost narrowing takes precedence)
     for scope in scopes[binding_scope_idx..].iter().rev() {
